@@ -41,7 +41,7 @@ class TallySuite(Suite):
 
     # ------------------------------------------------------------------ generators
     def cases(self, rng, tier, prop):
-        count = {"quick": 350, "thorough": 4000}[tier]
+        count = {"quick": 700, "thorough": 8000}[tier]
         out = []
         # every outcome alone, and all four together
         for oc in ("ok", "failed", "canceled", "missing"):
